@@ -378,6 +378,35 @@ pub fn judge(base: &Tree, muts: &[usize], scratch: &Scratch) -> Vec<Violation> {
     v
 }
 
+pub fn cli_route(scratch: &Scratch) -> Vec<(Violation, Value)> {
+    let base = base_trees().remove(2);
+    let mut sets: Vec<Vec<usize>> = (0..N_MUT).map(|m| vec![m]).collect();
+    sets.push(vec![0, 8, 11]);
+    sets.push(vec![5, 6, 12]);
+    let is_file_in = |t: &Tree, a: &str| t.get(&a[1..]).is_some_and(|n| n.is_file());
+    let mut cases = Vec::new();
+    for set in sets {
+        let mut new = base.clone();
+        for m in &set {
+            mutate(&mut new, *m);
+        }
+        let want = model_diff(&base, &new, false);
+        let want_all = model_diff(&base, &new, true);
+        let mut want_cb: Vec<(String, char)> = Vec::new();
+        for (a, s) in &want {
+            match s {
+                '+' if is_file_in(&new, a) => want_cb.push((a.clone(), '+')),
+                '*' if is_file_in(&new, a) => want_cb.push((a.clone(), '*')),
+                '-' if is_file_in(&base, a) => want_cb.push((a.clone(), '-')),
+                _ => {}
+            }
+        }
+        want_cb.sort_by(|a, b| apath_cmp(&a.0, &b.0));
+        cases.push((base.clone(), new, want, want_all, want_cb));
+    }
+    crate::cli::c18(scratch, &cases)
+}
+
 pub fn run(report: &Report, budget: &Budget) {
     let thorough = report.thorough();
     let muts: Vec<usize> = (0..N_MUT).collect();
